@@ -16,6 +16,7 @@ use std::os::unix::net::UnixStream as StdUnixStream;
 use std::panic::{AssertUnwindSafe, catch_unwind};
 use std::process::{Child, Command, Stdio};
 use std::sync::mpsc;
+use std::sync::{Arc, Condvar, Mutex};
 use std::thread::JoinHandle;
 use std::time::{Duration, Instant};
 
@@ -97,6 +98,41 @@ pub struct FakeWorker {
     pub pid: i32,
 }
 
+/// A gate on the hub's run loop (through the `verif_hook::install_loop_hook` closure, called once per
+/// loop turn between `poll` and the handling of the events it returned). While the gate is closed the
+/// hub thread waits in the hook: everything the harness does meanwhile (a worker's answer AND its
+/// hang-up, several clients' requests, ...) is found by the hub's NEXT poll in one batch - the
+/// "busy main process" of the spec's non-quiescent schedules, made deterministic.
+pub struct Gate {
+    /// (closed, parked, turns)
+    state: Mutex<(bool, bool, u64)>,
+    cv: Condvar,
+}
+
+impl Gate {
+    fn new() -> Gate {
+        Gate { state: Mutex::new((false, false, 0)), cv: Condvar::new() }
+    }
+    fn hook(&self) {
+        let mut st = self.state.lock().unwrap();
+        st.2 += 1;
+        if st.0 {
+            st.1 = true;
+            self.cv.notify_all();
+            while st.0 {
+                st = self.cv.wait(st).unwrap();
+            }
+            st.1 = false;
+            self.cv.notify_all();
+        }
+    }
+    fn open(&self) {
+        let mut st = self.state.lock().unwrap();
+        st.0 = false;
+        self.cv.notify_all();
+    }
+}
+
 pub struct Hub {
     pub path: String,
     pub workers: Vec<FakeWorker>,
@@ -104,6 +140,10 @@ pub struct Hub {
     _dir: tempfile::TempDir,
     pub timeout_s: u32,
     fate: Option<Result<bool, String>>,
+    gate: Arc<Gate>,
+    /// private client connection used to wake the loop when parking it (created on first use)
+    poke: Option<ClientChan>,
+    poke_pending: bool,
 }
 
 pub type ClientChan = Channel<Request, Response>;
@@ -142,6 +182,8 @@ impl Hub {
             workers.push(FakeWorker { id, chan: Some(chan), scm_keep: Some(scm_mine), child: Some(child), pid });
         }
         let (tx, rx) = mpsc::channel::<Result<(), String>>();
+        let gate = Arc::new(Gate::new());
+        let gate2 = gate.clone();
         let p2 = path.clone();
         let cfg_path = dir.path().join("config.toml").to_string_lossy().to_string();
         let join = std::thread::Builder::new()
@@ -186,6 +228,7 @@ impl Hub {
                         return Err(m);
                     }
                 };
+                sozu::command::server::verif_hook::install_loop_hook(Box::new(move |_server| gate2.hook()));
                 let res = match catch_unwind(AssertUnwindSafe(|| hub.run())) {
                     Ok(upgrading) => Ok(upgrading),
                     Err(p) => Err(vh::util::panic_message(p)),
@@ -205,7 +248,56 @@ impl Hub {
             Ok(Err(e)) => return Err(format!("hub setup failed: {e}")),
             Err(_) => return Err("hub setup timed out".into()),
         }
-        Ok(Hub { path, workers, join: Some(join), _dir: dir, timeout_s, fate: None })
+        Ok(Hub { path, workers, join: Some(join), _dir: dir, timeout_s, fate: None, gate, poke: None, poke_pending: false })
+    }
+
+    /// Park the hub's loop: returns once the hub thread waits in the loop hook (it has returned from
+    /// `poll` with, at least, the wake-up message of a private connection, and handles nothing until
+    /// `unpark`). Err = the hub did not get there within 10 s (dead, or stuck elsewhere).
+    pub fn park(&mut self) -> Result<(), String> {
+        if self.poke.is_none() {
+            self.poke = Some(self.connect()?);
+        }
+        self.gate.state.lock().unwrap().0 = true;
+        let poke = self.poke.as_mut().unwrap();
+        if let Err(e) = poke.write_message(&list_workers_request()) {
+            self.gate.open();
+            return Err(format!("park: cannot wake the hub: {e:?}"));
+        }
+        self.poke_pending = true;
+        let deadline = Instant::now() + Duration::from_secs(10);
+        let mut st = self.gate.state.lock().unwrap();
+        while !st.1 {
+            let left = deadline.saturating_duration_since(Instant::now());
+            if left.is_zero() {
+                st.0 = false;
+                self.gate.cv.notify_all();
+                return Err("park: the hub did not reach its loop hook within 10 s".into());
+            }
+            st = self.gate.cv.wait_timeout(st, left).unwrap().0;
+        }
+        Ok(())
+    }
+
+    /// Let the parked loop go on, and take the answer to the wake-up message off the private connection.
+    pub fn unpark(&mut self) {
+        self.gate.open();
+        if self.poke_pending {
+            self.poke_pending = false;
+            if let Some(p) = self.poke.as_mut() {
+                loop {
+                    match recv(p, Duration::from_secs(10)) {
+                        Recv::Msg(m) if status_name(m.status) == "processing" => continue,
+                        _ => break,
+                    }
+                }
+            }
+        }
+    }
+
+    /// loop turns of the hub so far
+    pub fn turns(&self) -> u64 {
+        self.gate.state.lock().unwrap().2
     }
 
     pub fn dir(&self) -> &std::path::Path {
@@ -255,6 +347,8 @@ impl Hub {
     /// no live worker finishes at once) and wait for run() to return. Returns the hub thread's fate:
     /// Ok(Some(r)) joined, Ok(None) still running after `wait` (leaked, parked in poll).
     pub fn teardown(mut self, wait: Duration) -> Option<Result<bool, String>> {
+        self.gate.open();
+        self.poke = None;
         for w in 0..self.workers.len() {
             self.close_worker(w);
         }
@@ -339,16 +433,73 @@ pub fn metrics_request() -> RequestType {
 
 /// Write a state file with `parts` AddCluster requests for request `r`; returns its path.
 pub fn write_state_file(dir: &std::path::Path, r: u64, parts: u64) -> String {
+    let shape: Vec<String> = (0..parts).map(|_| "good".to_string()).collect();
+    write_state_file_shape(dir, r, &shape, 0)
+}
+
+/// Concretisation of the spec's file shapes (MasterHub.tla, `Files`): one record per element.
+///   "good"    AddCluster r<r>p<k>, k = 1, 2, ... (accepted by the main state, scattered as part k)
+///   "refused" a record that parses but that ConfigState::dispatch refuses (RemoveCluster of an absent cluster)
+///   "bad"     a record that does not parse; `flavour` picks how: the first half of a valid record, a JSON
+///             document of the wrong type, raw bytes, or - when it is the last element - a record cut off
+///             before its terminator (a file truncated by a crash / full disk)
+///   ["missing"] no file at all: the returned path does not exist
+pub fn write_state_file_shape(dir: &std::path::Path, r: u64, shape: &[String], flavour: u64) -> String {
     use std::io::Write;
     let path = dir.join(format!("state_r{r}.json"));
+    if shape.len() == 1 && shape[0] == "missing" {
+        let _ = std::fs::remove_file(&path);
+        return path.to_string_lossy().to_string();
+    }
     let mut f = std::fs::File::create(&path).expect("state file");
-    for p in 1..=parts {
-        let m = WorkerRequest { id: format!("SAVE-{p}"), content: Request { request_type: Some(add_cluster(r, p)) } };
-        f.write_all(serde_json::to_string(&m).unwrap().as_bytes()).unwrap();
-        f.write_all(b"\n\0").unwrap();
+    let mut good = 0u64;
+    for (i, kind) in shape.iter().enumerate() {
+        let last = i + 1 == shape.len();
+        match kind.as_str() {
+            "good" => {
+                good += 1;
+                let m = WorkerRequest { id: format!("SAVE-{i}"), content: Request { request_type: Some(add_cluster(r, good)) } };
+                f.write_all(serde_json::to_string(&m).unwrap().as_bytes()).unwrap();
+                f.write_all(b"\n\0").unwrap();
+            }
+            "refused" => {
+                let m = WorkerRequest {
+                    id: format!("SAVE-{i}"),
+                    content: Request { request_type: Some(RequestType::RemoveCluster(format!("absent-r{r}-{i}"))) },
+                };
+                f.write_all(serde_json::to_string(&m).unwrap().as_bytes()).unwrap();
+                f.write_all(b"\n\0").unwrap();
+            }
+            "bad" => {
+                let m = WorkerRequest { id: format!("SAVE-{i}"), content: Request { request_type: Some(add_cluster(r, 99)) } };
+                let text = serde_json::to_string(&m).unwrap();
+                match (flavour + i as u64) % 4 {
+                    0 => {
+                        f.write_all(&text.as_bytes()[..text.len() / 2]).unwrap();
+                        f.write_all(b"\n\0").unwrap();
+                    }
+                    1 => f.write_all(b"{\"id\": 5, \"content\": []}\n\0").unwrap(),
+                    2 => f.write_all(b"\x01\x02 not json \xff\n\0").unwrap(),
+                    _ if last => f.write_all(&text.as_bytes()[..text.len() - 3]).unwrap(),
+                    _ => {
+                        f.write_all(&text.as_bytes()[..text.len() - 3]).unwrap();
+                        f.write_all(b"\0").unwrap();
+                    }
+                }
+            }
+            other => panic!("unknown record kind {other}"),
+        }
     }
     f.sync_all().ok();
     path.to_string_lossy().to_string()
+}
+
+/// records of a shape that are scattered (the good ones before the first bad one)
+pub fn accepted_records(shape: &[String]) -> u64 {
+    if shape.len() == 1 && shape[0] == "missing" {
+        return 0;
+    }
+    shape.iter().take_while(|k| *k != "bad").filter(|k| *k == "good").count() as u64
 }
 
 pub fn status_name(s: i32) -> &'static str {
